@@ -400,7 +400,7 @@ _C03 = [
  ("srp_internal", "c03_xor_custom", ["cap64", "q4"], "calculate_xor_hash", "N', g any", "== H(N') xor H([g])"),
  ("srp_internal", "c03_session_key", ["cap128", "q8"], "calculate_session_key", "A, B, v, b any; callees uninterpreted", "K == interleave(S(A, v, u(A,B), b))"),
  ("srp_internal_client", "c03_a_client", ["b4"], "calculate_client_public_key, PublicKey::client_try_from_bigint", "a, g, N' != 0 any", "A == pad32(g^a mod N'); refused only when 0"),
- ("srp_internal_client", "c03_s_client", ["b8"], "calculate_client_S", "B valid, x, a, u, g, N' != 0 any", "S == pad32((B - 3*g^x)^(a + u*x) mod N') incl. negative base"),
+ ("srp_internal_client", "c03_s_client", ["b16"], "calculate_client_S", "B valid, x, a, u, g, N' != 0 any", "S == pad32((B - 3*g^x)^(a + u*x) mod N') incl. negative base"),
  ("srp_internal_client", "c03_m1_custom", ["cap192", "q8"], "calculate_client_proof_with_custom_value", "U, K, A, B, salt, N', g any", "M1 == H(H(N') xor H(g) | H(U) | salt | A | B | K)"),
  ("server", "c03_registration", ["cap128", "q8"], "SrpVerifier::{from_username_and_password, from_database_values, into_proof, accessors}", "U, P any; RNG draws any; callees uninterpreted", "salt, b fresh draws; v == v(U,P,salt); B == B(v,b); record survives export/import"),
  ("client", "c03_client_challenge", ["cap192", "q16"], "SrpClientChallenge::new", "U, P, g, N', B, salt any; a = RNG draw; callees uninterpreted", "A, K, M1 are the leaf functions applied to (a, announced g and N', B, salt, U, P)"),
@@ -456,9 +456,10 @@ H("C18", "matrix_card", "c18_cells", timeout=1800, encodes=["MatrixCard::{get_nu
   bounds="all card shapes up to 255 cells, 1..4 digits", assumes=[], **_MC)
 H("C18", "matrix_card", "c18_from_data", timeout=900, encodes=["MatrixCard::from_data"], inputs="dimensions any, data length <= 64 any",
   asserts="accepted <=> length == digits*width*height", bounds="data <= 64 bytes", assumes=[], **_MC)
-for _n, _b in [("c18_coordinates_2x2", "2x2 card, count 1..4"), ("c18_coordinates_3x3", "3x3 card, count 1..9"), ("c18_coordinates_8x10", "8x10 card, count 1..3")]:
-    H("C18", "matrix_card", _n, timeout=2400, oracle_features=["cap64", "q4"], encodes=["matrix_card::generate_coordinates", "MatrixCardVerifier::get_matrix_coordinates"],
-      inputs="challenge count, 64-bit seed, two rounds 0..=255: any", asserts="round < count: Some(x<w, y<h), distinct rounds give distinct cells; otherwise None, no panic",
+for _n, _b, _tiers in [("c18_coordinates_2x2", "2x2 card, count 1..4, seeds < 2^16", ["quick", "thorough"]), ("c18_coordinates_3x3", "3x3 card, count 1..3, seeds < 2^16", ["quick", "thorough"]),
+                       ("c18_coordinates_8x10", "8x10 card, count 1..2, seeds < 2^16", ["quick", "thorough"]), ("c18_coordinates_2x2_u64", "2x2 card, count 1..4, all 64-bit seeds", ["thorough"])]:
+    H("C18", "matrix_card", _n, timeout=3600, tiers=_tiers, oracle_features=["cap64", "q4"], encodes=["matrix_card::generate_coordinates", "MatrixCardVerifier::get_matrix_coordinates"],
+      inputs="challenge count, seed, two rounds 0..=255: any", asserts="round < count: Some(x<w, y<h), distinct rounds give distinct cells; otherwise None, no panic",
       bounds=_b, assumes=["verifier built directly from generate_coordinates (MD5/RC4 key schedule skipped)"], **_MC)
 H("C15", "matrix_card", "c15_matrix_generators", timeout=900, encodes=["matrix_card::get_matrix_card_seed", "MatrixCard::new", "fill_matrix_card_values"],
   inputs="-", asserts="seed is a fresh 8-byte draw; each digit is its own fresh draw reduced into 0..=9", bounds="2x1 card with 2 digits", assumes=[RNG_ASSUME, "Uniform modelled as lo + draw % span"], **_MC)
@@ -505,7 +506,7 @@ _C14 = [
  ("srp_internal", "c03_m1_builtin", ["cap192", "q4"], "calculate_client_proof"),
  ("srp_internal", "c03_m2", ["cap128", "q4"], "calculate_server_proof"),
  ("srp_internal", "c03_u", ["cap64", "q4"], "calculate_u"),
- ("srp_internal_client", "c03_s_client", ["b8"], "calculate_client_S for every valid B, any x, a, u, any announced group, every result below N incl. negative base"),
+ ("srp_internal_client", "c03_s_client", ["b16"], "calculate_client_S for every valid B, any x, a, u, any announced group, every result below N incl. negative base"),
  ("srp_internal_client", "c03_m1_custom", ["cap192", "q8"], "calculate_client_proof_with_custom_value"),
  ("srp_internal_client", "c03_a_client", ["b4"], "calculate_client_public_key"),
  ("server", "c02_server_decision", ["cap192", "q8"], "SrpProof::into_server for every valid A and every M1"),
@@ -531,4 +532,4 @@ H("C18", "matrix_card", "c18_proof_agreement", timeout=3600, oracle_features=["c
   encodes=["matrix_card::verify_matrix_card_hash", "MatrixCardVerifier::{new, get_matrix_coordinates, enter_value, into_proof}", "MatrixCard::get_number_at_coordinates"],
   inputs="2x2 card, digit count 1..2, challenge count 1..2, seed, session key, card contents, position of one mistyped digit: any",
   asserts="proof of the printed digits at the challenged cells is accepted; a proof from a sequence with one digit changed is refused",
-  bounds="2x2 card; RC4 keystream = uninterpreted function of MD5(seed | session key)", assumes=[HASH_ASSUME, "Rc4::new / apply_keystream replaced by an uninterpreted keystream (same key => same keystream); explicit collision-freeness of the recorded HMAC queries"], **_MC)
+  bounds="2x2 card; RC4 keystream = uninterpreted function of MD5(seed | session key); generate_coordinates uninterpreted (distinct on-card cells)", assumes=[HASH_ASSUME, "Rc4::new / apply_keystream replaced by an uninterpreted keystream (same key => same keystream); explicit collision-freeness of the recorded HMAC queries"], **_MC)
